@@ -143,7 +143,13 @@ def restore_player(ctx, league, name, path, ids_seen=None, check=False):
         label = league.label(name)
         try:
             if path == "create_rating":
-                new = type(league.factory).create_rating([mu, sigma], label) if label is not None or len(name) % 2 else type(league.factory).create_rating([mu, sigma])
+                # half of the time through the service's one reusable two-element list (the
+                # library must not keep a reference to it)
+                pair = [mu, sigma]
+                if len(name) % 2 == 0:
+                    pair = league.__dict__.setdefault("_pair_buffer", [None, None])
+                    pair[:] = [mu, sigma]
+                new = type(league.factory).create_rating(pair, label) if label is not None or len(name) % 2 else type(league.factory).create_rating(pair)
             else:
                 path = "rating"
                 new = league.factory.rating(mu, sigma, label) if label is not None or len(name) % 2 else league.factory.rating(mu, sigma)
@@ -1419,7 +1425,7 @@ def c20_params(rng):
 
 BENCH_VALUES = [
     (0, 0), (0.0, 0.0), (-0.0, 0.0), (25, -1), (-25.0, -8.333), (1e300, 1e300), (-1e-300, 5e-324),
-    (0, 1), (1, 0), (0.0, 8.333), (25.0, 0), (-3, 2), (7, 7.5), (1e9, 1e-9), (-1e9, 3),
+    (0, 1), (1, 0), (0.0, 8.333), (25.0, 0), (-3, 2), (7, 7.5), (1e9, 1e-9), (-1e9, 3), (0.0, -0.0), (-0.0, -0.0),
 ]
 
 
